@@ -17,6 +17,13 @@ template class Pointset_Powerset<NNC_Polyhedron>;
 template class Pointset_Powerset<Grid>;
 template class Partially_Reduced_Product<C_Polyhedron, Grid, Constraints_Reduction<C_Polyhedron, Grid> >;
 template class Determinate<C_Polyhedron>;
+// member templates are not reached by the class instantiations
+template void Polyhedron::map_space_dimensions<Partial_Function>(const Partial_Function&);
+template void Grid::map_space_dimensions<Partial_Function>(const Partial_Function&);
+template void BD_Shape<mpq_class>::map_space_dimensions<Partial_Function>(const Partial_Function&);
+template void Octagonal_Shape<mpq_class>::map_space_dimensions<Partial_Function>(const Partial_Function&);
+template void Box<Rational_Interval>::map_space_dimensions<Partial_Function>(const Partial_Function&);
+template void Pointset_Powerset<C_Polyhedron>::map_space_dimensions<Partial_Function>(const Partial_Function&);
 template class Linear_Expression_Impl<Dense_Row>;
 template class Linear_Expression_Impl<Sparse_Row>;
 }
